@@ -93,17 +93,17 @@ def shape(fn, opaque_tail=False):
 # shape hashes of the functions OutModel.v transcribes (pinned when the model was written / last reviewed)
 PINNED = {
     ("Out", "_remove_last_if_S"): "1692834851ecd36b",
-    ("Out", "append"): "ead722ed91d22308",
+    ("Out", "append"): "ffe61d9a6661873b",
     ("Out", "value"): "f4a6421a7f4f920b",
     ("CSSSerializer", "_atkeyword"): "a12350e2f728543c",
-    ("CSSSerializer", "_indentblock"): "9983e8d14a9cf6bd",
+    ("CSSSerializer", "_indentblock"): "f06322690c47b78b",
     ("CSSSerializer", "_propertyname"): "794658aec6650170",
     ("CSSSerializer", "_valid"): "fdc645628f28accd",
-    ("CSSSerializer", "do_CSSStyleSheet"): "e9a06a8e9fbbe3ce",
+    ("CSSSerializer", "do_CSSStyleSheet"): "83faa9c9b2cd85f0",
     ("CSSSerializer", "do_CSSComment"): "e51caa764d107b70",
     ("CSSSerializer", "do_CSSMediaRule"): "0ef2be1ede8f31c9",
     ("CSSSerializer", "do_CSSUnknownRule"): "afc9dc8bc7188a66",
-    ("CSSSerializer", "do_CSSStyleRule"): "dac4eec6f0a623e1",
+    ("CSSSerializer", "do_CSSStyleRule"): "6a4bce88a300779a",
     ("CSSSerializer", "do_css_CSSStyleDeclaration"): "7943aa506d634aa6",
     ("CSSSerializer", "do_Property"): "722a5d90cf13576f",
 }
@@ -120,7 +120,7 @@ APPEND_ROLES = [
     ("lit_closebrace", "}"),
     ("lit_endspace", " "),
     ("lit_calc_ops", "-+*/"), ("lit_calc_space", " "),
-    ("lit_comb", "+>~"),
+    ("lit_comb", "+>~"), ("lit_ty_CHAR", "CHAR"), ("lit_comb_forced", " "),
     ("lit_funcend", ")"), ("lit_funcend_space", " "),
     ("lit_comma", ","), ("lit_colon", ":"), ("lit_openbrace", "{"),
     ("lit_semicolon", ";"), ("lit_ty_styletext", "styletext"),
@@ -131,7 +131,7 @@ APPEND_ROLES = [
 # for the type names and attribute names, whose change would alter the model's structure -> refused
 STRUCTURAL = {"lit_ty_STRING0", "lit_ty_URI0", "lit_ty_COMMENT", "lit_ty_S", "lit_ty_S1", "lit_ty_STRING",
               "lit_ty_URI", "lit_ty_HASH", "lit_attr_cssText", "lit_attr_mediaText", "lit_ty_styletext",
-              "lit_ty_FUNCTION", "lit_ty_STRING2"}
+              "lit_ty_FUNCTION", "lit_ty_STRING2", "lit_ty_CHAR"}
 
 
 def main(print_hashes=False):
@@ -202,6 +202,51 @@ def main(print_hashes=False):
         if role in STRUCTURAL and v != doc:
             raise Refused("Out.append: the constant in role %s is %r, the model is written for %r" % (role, v, doc))
         b.append("Definition %s : str := %s.   (* %r *)" % (role, coq_str(v), v))
+    il = lits[("CSSSerializer", "_indentblock")]
+    if len(il) != 2 or il[1] != "%s%s":
+        raise Refused("_indentblock: string constants %r, expected the strip set and '%%s%%s'" % (il,))
+    b.append("(* _indentblock: a line separator made only of these characters is not split on *)")
+    b.append("Definition lit_indent_blank : str := %s.   (* %r *)" % (coq_str(il[0]), il[0]))
+    # ------------------------------------------------------------ which preferences each function reads (data)
+    def reads(path):
+        fn = find_func(tree, list(path))
+        out = []
+        for n in ast.walk(fn):
+            if isinstance(n, ast.Attribute) and isinstance(n.value, ast.Attribute) and n.value.attr == "prefs":
+                if n.attr not in pd:
+                    raise Refused("%s.%s reads prefs.%s, which useDefaults does not define" % (path[0], path[1], n.attr))
+                if n.attr not in out:
+                    out.append(n.attr)
+            if isinstance(n, ast.Name) and n.id == "prefspace" and "spacer" not in out:
+                out.append("spacer")
+        return sorted(out)
+    groups = {
+        # everything a call of Out.append / Out.value can consult (the helpers it calls included)
+        "out": [("Out", "_remove_last_if_S"), ("Out", "append"), ("Out", "value"), ("CSSSerializer", "_indentblock"),
+                ("CSSSerializer", "_hash")],
+        # the sheet skeleton: the per-rule serialisers the model transcribes (+ Out, through do_CSSFontFaceRule)
+        "sheet": [("CSSSerializer", "do_CSSStyleSheet"), ("CSSSerializer", "do_CSSComment"),
+                  ("CSSSerializer", "do_CSSMediaRule"), ("CSSSerializer", "do_CSSUnknownRule"),
+                  ("CSSSerializer", "do_CSSStyleRule"), ("CSSSerializer", "do_CSSFontFaceRule"),
+                  ("CSSSerializer", "do_css_CSSStyleDeclaration"), ("CSSSerializer", "do_Property"),
+                  ("CSSSerializer", "_propertyname"), ("CSSSerializer", "_valid"), ("CSSSerializer", "_atkeyword"),
+                  ("CSSSerializer", "_linenumbers")],
+    }
+    b.append("(* preferences read by each function (every `<x>.prefs.<name>` in its body), regenerated *)")
+    per = {}
+    for g, paths in groups.items():
+        for path in paths:
+            if path not in per:
+                per[path] = reads(path)
+                b.append("Definition reads_%s : list str := [%s].   (* %s *)" % (
+                    path[1].strip("_"), "; ".join(coq_str(x) for x in per[path]), ", ".join(per[path])))
+    tys = dict(fields)
+    for g, paths in groups.items():
+        names = sorted({x for path in paths for x in per[path]} | (set() if g == "out" else
+                       {x for path in groups["out"] for x in per[path]}))
+        b.append("(* two preference records agree on everything the `%s` functions read *)" % g)
+        b.append("Definition agree_%s (p q : prefs) : Prop :=\n  %s." % (
+            g, " /\\\n  ".join("p.(%s) = q.(%s)" % (x, x) for x in names) or "True"))
     rl = lits[("Out", "_remove_last_if_S")]
     if rl:
         raise Refused("_remove_last_if_S has string constants %r" % rl)
